@@ -60,6 +60,10 @@ func (c *Ctx) Eval(nontrivialIdentity string) {
 		h := fnv.New64a()
 		h.Write([]byte(nontrivialIdentity))
 		c.hashes[h.Sum64()] = struct{}{}
+		if len(c.sample) == 0 {
+			// fallback so that a run always shows what a case looks like
+			c.sample = append(c.sample, map[string]string{"case_identity": trim(nontrivialIdentity, 600)})
+		}
 	}
 	c.mu.Unlock()
 }
@@ -181,6 +185,9 @@ func LogResult(i int, r Result) {
 // CurrentIndex is the case being executed (for hooks that abort the process).
 var CurrentIndex int
 
+// CurrentCase describes the operation in flight (for hooks that abort the process).
+var CurrentCase interface{}
+
 // Abort records a violation for the current case from any goroutine and exits.
 func Abort(code int, key, msg string, c interface{}) {
 	AbortWith(Violated, code, key, msg, c)
@@ -188,6 +195,9 @@ func Abort(code int, key, msg string, c interface{}) {
 
 // AbortWith is Abort with an explicit verdict.
 func AbortWith(verdict string, code int, key, msg string, c interface{}) {
+	if c == nil {
+		c = CurrentCase
+	}
 	LogResult(CurrentIndex, Result{Verdict: verdict, Key: key, Msg: msg, Case: c})
 	os.Exit(code)
 }
